@@ -404,27 +404,29 @@ C07_Victims == HasPreempt =>
          /\ LET v == VictimRec(Pre, m) IN v.allocated /\ ~v.released /\ ~v.preempted /\ v.reqNode = ""
          /\ \A j \in 1..Len(PreemptRel) : j # i => PreemptRel[j].key # m.key
          /\ ((m.app \in AppsOf(Post) /\ m.key \in DOMAIN Post.apps[m.app].allocs) => Post.apps[m.app].allocs[m.key].preempted)
-C07_Asker == (HasPreempt /\ E.op = "schedule") => Cardinality(Triggering) = 1
+\* One scheduling cycle can trigger preemption for several asks: the reserved-allocation pass runs the required-node
+\* preemptor for every reserved daemon-set ask and carries on, and the normal pass can then trigger one queue preemption
+\* per partition.  So a step has at least one triggering ask, and every victim must be explained by one of them.
+C07_Asker == (HasPreempt /\ E.op = "schedule") => Triggering # {}
+IsPreemptStep == HasPreempt /\ E.op = "schedule" /\ Triggering # {}
 IsQueuePreempt == HasPreempt /\ E.op = "schedule" /\ Cardinality(Triggering) = 1
 TheAsker == CHOOSE x \in Triggering : TRUE
-C07_QueueRules == IsQueuePreempt =>
-      LET a == TheAsker
-          askQ == LeafOf(Pre, a[1])
-          fr == FenceRoot(Pre, askQ) IN
-      IF a[3].reqNode # "" THEN
-         \A i \in 1..Len(PreemptRel) : LET m == PreemptRel[i]
-                                           v == VictimRec(Pre, m) IN
-            v.node = a[3].reqNode /\ v.prio <= a[3].prio
-      ELSE
-         /\ a[3].preemptOther /\ a[3].aged
-         /\ \A i \in 1..Len(PreemptRel) : LET m == PreemptRel[i]
-                                             v == VictimRec(Pre, m)
-                                             vq == LeafOf(Pre, m.app) IN
-            /\ vq # askQ
-            /\ fr \in Ancestors(Pre, vq)
-            /\ Pre.queues[vq].preemptEnabled
-            /\ \E t \in DOMAIN a[3].res : t \in DOMAIN v.res
-            /\ PrioEligible(Pre, askQ, vq, a[3].prio, v.prio)
+VictimOKFor(a, m) ==
+      LET askQ == LeafOf(Pre, a[1])
+          fr == FenceRoot(Pre, askQ)
+          v == VictimRec(Pre, m)
+          vq == LeafOf(Pre, m.app) IN
+      IF a[3].reqNode # "" THEN v.node = a[3].reqNode /\ v.prio <= a[3].prio
+      ELSE /\ a[3].preemptOther /\ a[3].aged
+           /\ vq # askQ
+           /\ fr \in Ancestors(Pre, vq)
+           /\ Pre.queues[vq].preemptEnabled
+           /\ \E t \in DOMAIN a[3].res : t \in DOMAIN v.res
+           /\ PrioEligible(Pre, askQ, vq, a[3].prio, v.prio)
+C07_QueueRules == IsPreemptStep =>
+      /\ \A i \in 1..Len(PreemptRel) : \E a \in Triggering : VictimOKFor(a, PreemptRel[i])
+      \* an ask that may not preempt others, or has not waited long enough, never triggers queue preemption
+      /\ \A a \in Triggering : a[3].reqNode # "" \/ (a[3].preemptOther /\ a[3].aged)
 Used(s, q) == RSub(s.queues[q].alloc, s.queues[q].preempting)
 UnderGuar(s, q, res) == \E g \in Ancestors(s, q) : \E t \in DOMAIN res : t \in DOMAIN s.queues[g].guar /\ Get(Used(s, g), t) < s.queues[g].guar[t]
 C08_AskUnder == IsQueuePreempt =>
